@@ -1,10 +1,13 @@
 package main
 
 import (
+	"encoding/json"
 	"fmt"
 	"os"
 	"path/filepath"
+	"regexp"
 	"runtime"
+	"sort"
 	"strings"
 )
 
@@ -16,6 +19,7 @@ type Variant struct {
 	File      string // path relative to the repository root
 	Old, New  string // first occurrence of Old is replaced by New
 	Edits     [][2]string
+	Patch     string // alternatively: a unified diff (path relative to the verif root) applied in memory
 	Rule      string // rule expected to report a violation
 	Construct string // substring expected in the violated construct ("" = any)
 }
@@ -31,27 +35,56 @@ func runSelfTest(c *Ctx, p *propDef, verif string) {
 			base[o.Rule+"|"+o.Construct] = true
 		}
 	}
-	for _, v := range p.Variants() {
+	variants := append(p.Variants(), seededVariants(verif, p.ID)...)
+	for _, v := range variants {
 		res := SelfTestResult{Variant: v.Name, Rule: v.Rule, Expect: v.Construct}
-		path := filepath.Join(c.W.RepoDir, v.File)
-		src, err := os.ReadFile(path)
-		if err != nil {
-			res.Skipped = "file not present: " + v.File
-			c.selfTest = append(c.selfTest, res)
-			continue
-		}
-		edits := v.Edits
-		if v.Old != "" {
-			edits = append([][2]string{{v.Old, v.New}}, edits...)
-		}
-		text := string(src)
+		overlay := map[string][]byte{}
 		stale := false
-		for _, e := range edits {
-			if !strings.Contains(text, e[0]) {
-				stale = true
-				break
+		if v.Patch != "" {
+			files, err := parseUnifiedDiff(filepath.Join(verif, v.Patch))
+			if err != nil {
+				res.Skipped = "patch unreadable: " + err.Error()
+				c.selfTest = append(c.selfTest, res)
+				continue
 			}
-			text = strings.Replace(text, e[0], e[1], 1)
+			for rel, hunks := range files {
+				path := filepath.Join(c.W.RepoDir, rel)
+				src, err := os.ReadFile(path)
+				if err != nil {
+					stale = true
+					break
+				}
+				text := string(src)
+				for _, h := range hunks {
+					if !strings.Contains(text, h[0]) {
+						stale = true
+						break
+					}
+					text = strings.Replace(text, h[0], h[1], 1)
+				}
+				overlay[path] = []byte(text)
+			}
+		} else {
+			path := filepath.Join(c.W.RepoDir, v.File)
+			src, err := os.ReadFile(path)
+			if err != nil {
+				res.Skipped = "file not present: " + v.File
+				c.selfTest = append(c.selfTest, res)
+				continue
+			}
+			edits := v.Edits
+			if v.Old != "" {
+				edits = append([][2]string{{v.Old, v.New}}, edits...)
+			}
+			text := string(src)
+			for _, e := range edits {
+				if !strings.Contains(text, e[0]) {
+					stale = true
+					break
+				}
+				text = strings.Replace(text, e[0], e[1], 1)
+			}
+			overlay[path] = []byte(text)
 		}
 		if stale {
 			fmt.Printf("  selftest: variant %s skipped: its anchor text is not in the current source\n", v.Name)
@@ -59,7 +92,7 @@ func runSelfTest(c *Ctx, p *propDef, verif string) {
 			c.selfTest = append(c.selfTest, res)
 			continue
 		}
-		w2, err := loadWorld(c.W.RepoDir, map[string][]byte{path: []byte(text)}, "")
+		w2, err := loadWorld(c.W.RepoDir, overlay, "")
 		if err != nil {
 			res.Skipped = "variant does not load: " + firstLine(err.Error())
 			c.selfTest = append(c.selfTest, res)
@@ -98,4 +131,82 @@ func firstLine(s string) string {
 		return s[:i]
 	}
 	return s
+}
+
+// seededVariants turns every filed seeded change of a property
+// (<verif>/seeded/<id>/{patch.diff,meta.json}) into a self-test variant: the
+// rule named first in meta.detected_by must fire on the patched source.
+func seededVariants(verif, prop string) []Variant {
+	dirs, _ := filepath.Glob(filepath.Join(verif, "seeded", "*", "meta.json"))
+	sort.Strings(dirs)
+	ruleRe := regexp.MustCompile(`C\d\d\.[A-Z]\d+`)
+	var out []Variant
+	for _, m := range dirs {
+		b, err := os.ReadFile(m)
+		if err != nil {
+			continue
+		}
+		var meta struct {
+			ID         string `json:"id"`
+			Property   string `json:"property"`
+			DetectedBy string `json:"detected_by"`
+		}
+		if json.Unmarshal(b, &meta) != nil || meta.Property != prop {
+			continue
+		}
+		rule := ruleRe.FindString(meta.DetectedBy)
+		if rule == "" || !strings.HasPrefix(rule, prop+".") {
+			continue
+		}
+		out = append(out, Variant{Name: "seeded:" + meta.ID, Patch: filepath.Join("seeded", meta.ID, "patch.diff"), Rule: rule})
+	}
+	return out
+}
+
+// parseUnifiedDiff returns, per file, the (old block, new block) text pairs of
+// the hunks of a git diff. Blocks include the context lines, so a hunk applies
+// only where its surroundings are unchanged.
+func parseUnifiedDiff(path string) (map[string][][2]string, error) {
+	b, err := os.ReadFile(path)
+	if err != nil {
+		return nil, err
+	}
+	out := map[string][][2]string{}
+	var file string
+	var oldB, newB strings.Builder
+	inHunk := false
+	flush := func() {
+		if inHunk && file != "" {
+			out[file] = append(out[file], [2]string{oldB.String(), newB.String()})
+		}
+		oldB.Reset()
+		newB.Reset()
+		inHunk = false
+	}
+	for _, ln := range strings.SplitAfter(string(b), "\n") {
+		switch {
+		case strings.HasPrefix(ln, "diff --git"), strings.HasPrefix(ln, "index "), strings.HasPrefix(ln, "--- "):
+			flush()
+		case strings.HasPrefix(ln, "+++ "):
+			flush()
+			file = strings.TrimSpace(strings.TrimPrefix(strings.TrimPrefix(ln, "+++ "), "b/"))
+		case strings.HasPrefix(ln, "@@"):
+			flush()
+			inHunk = true
+		case inHunk && strings.HasPrefix(ln, " "):
+			oldB.WriteString(ln[1:])
+			newB.WriteString(ln[1:])
+		case inHunk && strings.HasPrefix(ln, "-"):
+			oldB.WriteString(ln[1:])
+		case inHunk && strings.HasPrefix(ln, "+"):
+			newB.WriteString(ln[1:])
+		case inHunk && strings.HasPrefix(ln, "\\"):
+			// "\ No newline at end of file"
+		}
+	}
+	flush()
+	if len(out) == 0 {
+		return nil, fmt.Errorf("no hunks in %s", path)
+	}
+	return out, nil
 }
